@@ -17,5 +17,7 @@ for id in "${kept[@]}"; do
 	log=/tmp/try-$id.log
 	tools/try_seed_wt.sh seeded/$id/patch.diff $p > $log 2>&1
 	n=$(grep -c '^VIOLATION' $log)
+	cls=$(grep -B1 '^VIOLATION' $log | head -n 1 | sed 's/^ *//' | cut -d' ' -f1)
+	if [ "$n" -gt 0 ]; then echo "| $id | $p | 1 | $cls |" > seeded/$id/result.row; elif grep -q "HARNESS ERROR" $log; then echo "| $id | $p | 2 | |" > seeded/$id/result.row; else echo "| $id | $p | 0 | |" > seeded/$id/result.row; fi
 	echo "## $id violations=$n $(grep -B1 '^VIOLATION' $log | head -n 1 | cut -c1-220)"
 done
